@@ -393,7 +393,7 @@ func RunCheck(cfg CheckConfig) int {
 	}
 	// findings about assumed contracts (found by the cross-check harness, not by an obligation) are always listed
 	for name, k := range known {
-		if strings.HasPrefix(name, "assumed:") {
+		if strings.HasPrefix(name, "assumed:") || strings.HasPrefix(name, "model:") {
 			knownSeen[name] = true
 			out("KNOWN-FINDING: property=%s %s (%s)", cfg.Property, k.What, name)
 		}
